@@ -19,7 +19,7 @@ sa_type_names = [
 ]
 
 
-class RenderError(Exception):
+class RenderError(SQLAlchemyError):
     ...
 
 
